@@ -1,4 +1,4 @@
-import AioslskVerif.Proofs.DistSusp
+import AioslskVerif.Proofs.DistAnnounced
 /-!
 # C13 — distributed tree: one parent, bounded live children, truthful advertised place
 
@@ -219,6 +219,60 @@ theorem C13_truthful_children (ops : List XOp) (me : Name) (hs : (xrun ops).d.se
   ⟨_, _, adv_derived_s _ me (xrun_xinv ops).binv.str hd,
    (xinv_settled _ (xrun_xinv ops) hq).told.toldC me hs d hc⟩
 
+/-- **The position kept for a live connection is the position it announced** — by the protocol's own rule
+(`Spec/DistAnnounced.lean`: a level sets the level, level 0 makes the peer its own root whatever root it announced
+before, a root sets the root; a fold over the events alone, independent of the handlers). After every history, for
+every registered connection whose `CLOSED` event has not been seen — in particular the parent and every candidate. -/
+theorem C13_position_is_announced (ops : List XOp) (c : ConnId) (h : (xrun ops).alive c) :
+    (xrun ops).d.level c = (announced ops).level c ∧ (xrun ops).d.root c = (announced ops).root c ∧
+    (xrun ops).d.name c = (announced ops).name c := (agree_xrun ops).2 c h
+
+/-- **Level 0 means "I am the root of my branch"**: when a live connection announces level 0 — after any history,
+whatever root it announced before, with no root message behind it — its position is `(0, its own user)`. -/
+theorem C13_level_zero_is_own_root (ops : List XOp) (c : ConnId)
+    (h : (xrun (ops ++ [.base (.level c 0)])).alive c) :
+    (xrun (ops ++ [.base (.level c 0)])).d.level c = some 0 ∧
+    (xrun (ops ++ [.base (.level c 0)])).d.root c = some ((xrun (ops ++ [.base (.level c 0)])).d.name c) := by
+  obtain ⟨h1, h2, h3⟩ := C13_position_is_announced _ c h
+  have e : announced (ops ++ [.base (.level c 0)]) = annStep (announced ops) (.base (.level c 0)) := by
+    simp only [announced, List.foldl_append, List.foldl_cons, List.foldl_nil]
+  rw [h1, h2, h3, e]
+  show upd (announced ops).level c (some 0) c = some 0 ∧
+    (if 0 = 0 then upd (announced ops).root c (some ((announced ops).name c)) else (announced ops).root) c =
+      some ((announced ops).name c)
+  rw [if_pos rfl]
+  exact ⟨upd_self _ _ _, upd_self _ _ _⟩
+
+/-- the degenerate announcement, read on the books or on the announcements: the same thing -/
+theorem C13_degenerate_iff (ops : List XOp) (me : Name) :
+    Degenerate (xrun ops).d me ↔ DegenerateAnn (xrun ops).d (announced ops) me := by
+  constructor
+  · intro ⟨c, hp, hr⟩
+    exact ⟨c, hp, (C13_position_is_announced ops c ((C13_live ops).1 c hp)).2.1 ▸ hr⟩
+  · intro ⟨c, hp, hr⟩
+    exact ⟨c, hp, (C13_position_is_announced ops c ((C13_live ops).1 c hp)).2.1.symm ▸ hr⟩
+
+/-- **Truthful to the server about what the parent ANNOUNCED.** `C13_truthful_server` with "the parent's level and
+root" read off the parent's announcements by the protocol rule instead of the handlers' own notes: a parent that
+announced `(2, r)` and later only level 0 leaves the server told `(1, the parent's user)`. -/
+theorem C13_truthful_server_announced (ops : List XOp) (me : Name) (hs : (xrun ops).d.session = some me)
+    (hd : ¬ DegenerateAnn (xrun ops).d (announced ops) me) :
+    ∃ a search, (xrun ops).d.toldServer = some (a, search) ∧
+      DerivedAnn (xrun ops).d (announced ops) me a search := by
+  obtain ⟨a, s, ht, hder⟩ := C13_truthful_server ops me hs (fun h => hd ((C13_degenerate_iff ops me).1 h))
+  exact ⟨a, s, ht, derived_announced ops me a s hder⟩
+
+/-- **Truthful to every child about what the parent ANNOUNCED** (as `C13_truthful_children`). -/
+theorem C13_truthful_children_announced (ops : List XOp) (me : Name) (hs : (xrun ops).d.session = some me)
+    (hd : ¬ DegenerateAnn (xrun ops).d (announced ops) me) (hq : (xrun ops).pend = []) (d : ConnId)
+    (hc : d ∈ (xrun ops).d.children) :
+    ∃ a search, DerivedAnn (xrun ops).d (announced ops) me a search ∧
+      (xrun ops).d.toldL d = some a.level ∧
+      ((xrun ops).d.toldR d = some a.root ∨ ((xrun ops).d.toldR d = none ∧ a.level = 0)) := by
+  obtain ⟨a, s, hder, h1, h2⟩ :=
+    C13_truthful_children ops me hs (fun h => hd ((C13_degenerate_iff ops me).1 h)) hq d hc
+  exact ⟨a, s, derived_announced ops me a s hder, h1, h2⟩
+
 /-- **When the server socket drains no handler stays suspended** — so after every release (and whenever the socket
 is not blocked) `C13_truthful_children` applies. -/
 theorem C13_release_settles (ops : List XOp) :
@@ -265,6 +319,24 @@ example : 0 ∈ (xrun ([.base (.sessionInit 0)] ++ [.base (.initialized 2 false)
 example : Degenerate
     (xrun [.base (.sessionInit 0), .base (.initialized 1 true), .base (.level 0 2), .base (.root 0 0)]).d 0 :=
   ⟨0, by decide, by decide⟩
+
+/-! The protocol's implicit root: the parent (connection 1, user 1) announced `(2, 7)`, child 0 and the server were told
+`(3, 7)`; then it announces level 0 and nothing else — it is its own root now: `(1, 1)` is told; a level alone
+afterwards keeps that root. The same for a candidate that announces a root first and then level 0. -/
+def demoRoot : List XOp :=
+  [.base (.sessionInit 0), .base (.initialized 2 false), .base (.potentialParents [1]),
+   .base (.initialized 1 true), .base (.level 1 2), .base (.root 1 7)]
+
+example : (xrun demoRoot).d.toldServer = some (⟨3, 7⟩, false) ∧ (xrun demoRoot).d.toldR 0 = some 7 := by decide
+example : (xrun (demoRoot ++ [.base (.level 1 0)])).alive 1 := ⟨by decide, by decide⟩
+example : (xrun (demoRoot ++ [.base (.level 1 0)])).d.toldServer = some (⟨1, 1⟩, false) ∧
+    (xrun (demoRoot ++ [.base (.level 1 0)])).d.toldL 0 = some 1 ∧
+    (xrun (demoRoot ++ [.base (.level 1 0)])).d.toldR 0 = some 1 ∧
+    (announced (demoRoot ++ [.base (.level 1 0)])).root 1 = some 1 := by decide
+example : (xrun (demoRoot ++ [.base (.level 1 0), .base (.level 1 4)])).d.toldServer = some (⟨5, 1⟩, false) := by
+  decide
+example : (xrun [.base (.sessionInit 0), .base (.potentialParents [1]), .base (.initialized 1 true),
+    .base (.root 0 7), .base (.level 0 0)]).d.toldServer = some (⟨1, 1⟩, false) := by decide
 
 /-! Suspended sends: two children (connections 0, 1), a candidate (connection 2) that has announced its root. The
 server socket blocks; the candidate's level makes it the parent — the server is told `(2, 5)` at once, the children are
